@@ -16,7 +16,9 @@ TFinal == Is("Final") /\ A!FinalOK(Ev.size, Ev.vals, Ev.moved) /\ UNCHANGED <<gr
 TSeg == Is("Seg") /\ A!SegOK(Ev.k, Ev.r, Ev.seg, Ev.off, Ev.pow) /\ UNCHANGED <<grows, gtals>>
 TBig == Is("GtalBig") /\ Ev.ok = 1 /\ UNCHANGED <<grows, gtals>>
 \* events of fault-injection executions that carry no obligation beyond "no Crash / no Stuck"
-TFree == (Is("Fault") \/ Is("Throw") \/ Is("Access") \/ Is("Destroyed")) /\ UNCHANGED <<grows, gtals>>
+\* after a failed growth every slot below size() is either a constructed element or was zero-filled by the vector (c = 1 / 2; 0 = the access threw), and
+\* the destructor of the vector never runs on a slot that is neither (garbage = 0): "the vector remains destructible, later accesses succeed or throw"
+TFree == (Is("Fault") \/ Is("Throw") \/ (Is("Access") /\ Ev.c # 3) \/ (Is("Destroyed") /\ Ev.garbage = 0)) /\ UNCHANGED <<grows, gtals>>
 TReset == Is("Reset") /\ grows' = {} /\ gtals' = {}
 TNext == TGrow \/ TGtal \/ TFinal \/ TSeg \/ TBig \/ TFree \/ TReset
 TraceSpec == TInit /\ [][TNext]_vars
